@@ -1083,6 +1083,19 @@ impl<'a> VisitMut for Rewriter<'a> {
                 self.pending_lets.push(parse_quote!(let #pn = #g;));
                 *e = parse_quote!(#f(&#x, #pn));
             }
+            Expr::MethodCall(mc) if mc.method == "format" && mc.args.len() == 1
+                && matches!(&*mc.receiver, Expr::MethodCall(im) if im.method == "iter" && im.args.is_empty())
+                && self.expr_map.iter().any(|(f, _)| f == "__adapter_iter_format") =>
+            {
+                // R39: itertools `X.iter().format(sep)` -> stand-in whose Display text is the items' Display
+                // texts joined by sep (itertools' documented meaning; sep stays an argument, so changing it is seen)
+                let to = self.expr_map.iter().find(|(f, _)| f == "__adapter_iter_format").map(|(_, t)| t.clone()).unwrap();
+                let f = syn::Ident::new(&to, proc_macro2::Span::call_site());
+                let x = match &*mc.receiver { Expr::MethodCall(im) => im.receiver.clone(), _ => unreachable!() };
+                let c = mc.args.first().unwrap().clone();
+                self.logr("R39", line, format!("`.iter().format(sep)` -> {}(&.., sep)", to));
+                *e = parse_quote!(#f(&#x, #c));
+            }
             Expr::MethodCall(mc) if mc.method == "find" && mc.args.len() == 1
                 && matches!(&*mc.receiver, Expr::MethodCall(im) if im.method == "iter" && im.args.is_empty())
                 && self.expr_map.iter().any(|(f, _)| f == "__adapter_iter_find") =>
